@@ -725,14 +725,14 @@ theorem npLinspace_spec {a b : α} (hab : a < b) (n : Nat) :
         · rw [List.mem_singleton] at hx
           rw [hx]; exact ⟨le_of_lt hab, le_refl _⟩
 
-theorem hasData_iff {s : State α} {x : α} : hasData s x = true ↔ x ∈ s.data.map Prod.fst := by
+theorem hasData_iff_ask {s : State α} {x : α} : hasData s x = true ↔ x ∈ s.data.map Prod.fst := by
   unfold hasData dataGet
   rw [Option.isSome_map, List.find?_isSome]
   simp only [decide_eq_true_eq, List.mem_map]
 
 theorem mem_all_iff {s : State α} (hI : Inv s) {x : α} :
     x ∈ s.data.map Prod.fst ++ s.pending ↔ x ∈ s.xsC := by
-  rw [List.mem_append, hI.xsC_mem, hasData_iff]
+  rw [List.mem_append, hI.xsC_mem, hasData_iff_ask]
 
 theorem missingBounds_not_mem {s : State α} (hI : Inv s) {x : α} (h : x ∈ missingBounds s) :
     x ∉ s.xsC := by
